@@ -8,6 +8,8 @@ import FordModel.Settings
 import FordModel.Lemmas.Settings
 import FordModel.SettingsSpec
 import FordModel.Lemmas.SettingsSpec
+import FordModel.SettingsSource
+import FordModel.Lemmas.SettingsSource
 namespace Ford.C15
 open Ford Ford.Settings
 
@@ -453,5 +455,115 @@ example : pathParts "./favicon.png".toList = pathParts "favicon.png".toList
 /-- non-vacuity over the regenerated tables: `favicon` and `md_base_dir` are path options -/
 example : tagOf Generated.settingsSchema "favicon".toList = some .path
     ∧ tagOf Generated.settingsSchema "md_base_dir".toList = some .path := by decide
+
+/-! ### round 6: where the options are taken from (`initialize` / `load_settings` / `load_toml_settings`) -/
+
+/-- Every attempt of the regenerated `load_settings` to find the manifest looks in the directory of
+    the *project file* (and there is at least one): nothing is looked up in the working directory.
+    A second lookup somewhere else (`load_toml_settings(Path.cwd())`) changes the regenerated table
+    and this obligation no longer checks. -/
+theorem toml_lookup_sound :
+    Generated.tomlLookups ≠ [] ∧ ∀ l ∈ Generated.tomlLookups, l = LookupDir.projectDir := by decide
+
+/-- "the `[extra.ford]` table of fpm.toml": the file the regenerated `load_toml_settings` opens and the
+    table it passes to `ProjectSettings(**...)`. -/
+theorem manifest_is_extra_ford_of_fpm_toml :
+    Generated.manifestName = "fpm.toml".toList
+    ∧ Generated.manifestTablePath = ["extra".toList, "ford".toList] := by decide
+
+/-- The source of a project's options is decided by the manifest *next to the project file* alone:
+    for every file system, working directory and spelling of the project file on the command line,
+    the regenerated lookup sequence selects what `load_toml_settings` makes of
+    `<directory of the project file>/fpm.toml`. -/
+theorem source_is_manifest_next_to_project_file (fs : FileSys) (cwd addr : Str) :
+    selectToml fs cwd (dirname addr) Generated.tomlLookups
+      = loadToml (manifestAt fs (projectDirOf cwd addr)) :=
+  selectToml_projectDir_only fs cwd (dirname addr) _ toml_lookup_sound.1 toml_lookup_sound.2
+
+/-- "... whatever the working directory": two starts of FORD that name the same project file - from
+    any two working directories, with any relative or absolute spelling of the path - have the same
+    effective configuration (or the same error), whatever manifests lie in the working directories,
+    for every metadata block, `--config` table and command line.  Whole pipeline, regenerated tables. -/
+theorem effective_same_from_every_working_directory (fs : FileSys) (cwd₁ addr₁ cwd₂ addr₂ pkg : Str)
+    (md : List Str) (config : Option Settings) (cli : Settings)
+    (h : projectDirOf cwd₁ addr₁ = projectDirOf cwd₂ addr₂) :
+    effectiveAt generatedTables Generated.tomlLookups fs cwd₁ addr₁ pkg md config cli
+      = effectiveAt generatedTables Generated.tomlLookups fs cwd₂ addr₂ pkg md config cli := by
+  simp only [effectiveAt, source_is_manifest_next_to_project_file, h]
+
+/-- A manifest in any directory other than the project file's - the working directory, the parent
+    directory, an unrelated fpm package - has no influence on the effective configuration: it may
+    appear, disappear, change its `[extra.ford]` table or be unreadable. -/
+theorem manifest_elsewhere_is_ignored (fs : FileSys) (d : Str) (m : Manifest) (cwd addr pkg : Str)
+    (md : List Str) (config : Option Settings) (cli : Settings)
+    (h : projectDirOf cwd addr ≠ d) :
+    effectiveAt generatedTables Generated.tomlLookups (aset d m fs) cwd addr pkg md config cli
+      = effectiveAt generatedTables Generated.tomlLookups fs cwd addr pkg md config cli := by
+  simp only [effectiveAt, source_is_manifest_next_to_project_file, manifestAt_aset_ne fs d _ m h]
+
+/-- "written as project-file metadata, as the `[extra.ford]` table of fpm.toml": the manifest next to
+    the project file is the configuration exactly when it has an `[extra.ford]` table (then the
+    metadata block is not consulted); without the file, without `[extra]` or without `[extra.ford]`
+    the metadata block of the project file is.  In both cases relative paths are taken from the
+    project file's directory. -/
+theorem source_is_manifest_table_or_metadata (fs : FileSys) (cwd addr pkg : Str)
+    (md : List Str) (config : Option Settings) (cli : Settings) :
+    (∀ kw, manifestAt fs (projectDirOf cwd addr) = .ford kw →
+      effectiveAt generatedTables Generated.tomlLookups fs cwd addr pkg md config cli
+        = (effective generatedTables (projectDirOf cwd addr) pkg (some kw) md config cli).mapError .settings)
+    ∧ (manifestAt fs (projectDirOf cwd addr) = .absent ∨ manifestAt fs (projectDirOf cwd addr) = .noExtra
+        ∨ manifestAt fs (projectDirOf cwd addr) = .noFord →
+      effectiveAt generatedTables Generated.tomlLookups fs cwd addr pkg md config cli
+        = (effective generatedTables (projectDirOf cwd addr) pkg none md config cli).mapError .settings) := by
+  refine ⟨fun kw hk => ?_, fun hk => ?_⟩
+  · simp only [effectiveAt, source_is_manifest_next_to_project_file, hk, loadToml]
+    cases effective generatedTables (projectDirOf cwd addr) pkg (some kw) md config cli <;> rfl
+  · rcases hk with hk | hk | hk <;>
+      simp only [effectiveAt, source_is_manifest_next_to_project_file, hk, loadToml] <;>
+      cases effective generatedTables (projectDirOf cwd addr) pkg none md config cli <;> rfl
+
+/-- A project file given by an absolute path has the same project directory from every working
+    directory (so the two theorems above apply to `ford /abs/doc/ford.md` started anywhere) ... -/
+theorem absolute_project_file_fixes_project_dir (cwd₁ cwd₂ r : Str) :
+    projectDirOf cwd₁ ('/' :: r) = projectDirOf cwd₂ ('/' :: r) :=
+  path_absolute_ignores_dir cwd₁ cwd₂ _ (dirname_absolute r)
+
+/-- ... and a bare file name (`ford ford.md`) has the working directory as project directory. -/
+theorem bare_project_file_is_in_working_directory (cwd name : Str) (h : name.contains '/' = false) :
+    projectDirOf cwd name = normPath cwd [] := by
+  simp [projectDirOf, dirname_no_slash name h]
+
+/-- Why `toml_lookup_sound` is demanded, for any option table: with a fall-back lookup in the working
+    directory, one and the same project file (absolute path, no manifest next to it) is configured
+    by its metadata block when FORD is started in `cwd₁` and by the unrelated manifest lying in
+    `cwd₂` when started there. -/
+theorem cwd_lookup_depends_on_cwd_witness (kw : Settings) (cwd₁ cwd₂ r : Str)
+    (hp₁ : normPath cwd₁ ('/' :: r) ≠ normPath cwd₂ []) (hp₂ : normPath cwd₂ ('/' :: r) ≠ normPath cwd₂ [])
+    (hc : normPath cwd₁ [] ≠ normPath cwd₂ []) :
+    selectToml [(normPath cwd₂ [], .ford kw)] cwd₁ ('/' :: r) [.projectDir, .cwd] = .ok none
+    ∧ selectToml [(normPath cwd₂ [], .ford kw)] cwd₂ ('/' :: r) [.projectDir, .cwd] = .ok (some kw) := by
+  simp [selectToml, lookupDir, manifestAt, aget, loadToml, Ne.symm hp₁, Ne.symm hp₂, Ne.symm hc]
+
+/-- non-vacuity: the layout of the usual fpm package - project file `/w/pkg/doc/ford.md`, started from
+    `/w/pkg/doc`, from `/w/pkg` and from `/w/other` - is one project directory; `dirname` behaves as
+    `os.path.dirname` on the boundary spellings -/
+example : projectDirOf "/w/pkg/doc".toList "ford.md".toList = "/w/pkg/doc".toList
+    ∧ projectDirOf "/w/pkg".toList "doc/ford.md".toList = "/w/pkg/doc".toList
+    ∧ projectDirOf "/w/other".toList "../pkg/./doc//ford.md".toList = "/w/pkg/doc".toList
+    ∧ projectDirOf "/w/other".toList "/w/pkg/doc/ford.md".toList = "/w/pkg/doc".toList
+    ∧ dirname "/ford.md".toList = "/".toList ∧ dirname "//a".toList = "//".toList
+    ∧ dirname "a//b".toList = "a".toList ∧ dirname "a/b/".toList = "a/b".toList := by decide
+
+/-- non-vacuity of the witness: the hypotheses are satisfiable, and over the regenerated lookup table
+    the same two starts agree -/
+example :
+    selectToml [("/w/other".toList, .ford [("project".toList, .atom (.str "Other".toList))])]
+        "/w/pkg".toList "/w/pkg/doc".toList [.projectDir, .cwd] = .ok none
+    ∧ selectToml [("/w/other".toList, .ford [("project".toList, .atom (.str "Other".toList))])]
+        "/w/other".toList "/w/pkg/doc".toList [.projectDir, .cwd]
+        = .ok (some [("project".toList, .atom (.str "Other".toList))])
+    ∧ selectToml [("/w/other".toList, .ford [("project".toList, .atom (.str "Other".toList))])]
+        "/w/other".toList "/w/pkg/doc".toList Generated.tomlLookups = .ok none := by
+  refine ⟨?_, ?_, ?_⟩ <;> rfl
 
 end Ford.C15
